@@ -14,6 +14,7 @@ import (
 	"net/http"
 	"net/http/httptest"
 	"os"
+	"path"
 	"path/filepath"
 	"runtime"
 	"sort"
@@ -41,6 +42,17 @@ type overlap struct {
 	pairs    map[string]int
 	maxIn    int
 	order    []string // global call/return order (for the interleaving signature)
+	ops      map[string]int
+}
+
+// count notes that an operation of a certain shape was issued.
+func (o *overlap) count(key string) {
+	o.mu.Lock()
+	if o.ops == nil {
+		o.ops = map[string]int{}
+	}
+	o.ops[key]++
+	o.mu.Unlock()
 }
 
 func newOverlap() *overlap {
@@ -138,18 +150,66 @@ func davWorker(cl *webdav.Client, i, steps int, r *rand.Rand, ov *overlap, jitte
 			return "0", fmt.Sprint(httpCode(err))
 		})
 	}
-	files := func() []string {
+	// sources of COPY / MOVE: the worker's files and collections, populated
+	// ones included (the recursive walks of the file system layer)
+	sources := func() []string {
 		var l []string
-		for p, c := range model {
-			if c != dir {
+		for p := range model {
+			if p != base {
 				l = append(l, p)
 			}
 		}
 		sort.Strings(l)
 		return l
 	}
+	// the worker's first-level collections: names below them form a second level
+	colls := func() []string {
+		var l []string
+		for p, c := range model {
+			if c == dir && p != base && path.Dir(p) == base {
+				l = append(l, p)
+			}
+		}
+		sort.Strings(l)
+		return l
+	}
+	related := func(a, b string) bool { // one lies below the other
+		return strings.HasPrefix(a, b+"/") || strings.HasPrefix(b, a+"/")
+	}
+	populated := func(p string) bool {
+		for q := range model {
+			if strings.HasPrefix(q, p+"/") {
+				return true
+			}
+		}
+		return false
+	}
+	copyTree := func(src, dst string, deep bool) {
+		sub := map[string]string{dst: model[src]}
+		if deep {
+			for p, v := range model {
+				if strings.HasPrefix(p, src+"/") {
+					sub[dst+p[len(src):]] = v
+				}
+			}
+		}
+		for p := range model {
+			if strings.HasPrefix(p, dst+"/") {
+				delete(model, p)
+			}
+		}
+		for p, v := range sub {
+			model[p] = v
+		}
+	}
 	for s := 1; s <= steps; s++ {
 		name := fmt.Sprintf("%s/%s%d", base, prefix, r.Intn(6))
+		if r.Intn(3) == 0 {
+			if cs := colls(); len(cs) > 0 {
+				name = fmt.Sprintf("%s/m%d", cs[r.Intn(len(cs))], r.Intn(3))
+				ov.count("operations on a second-level name")
+			}
+		}
 		switch op := r.Intn(10); {
 		case op <= 2: // Create
 			content := fmt.Sprintf("w%d-s%d-%s", i, s, strings.Repeat("x", r.Intn(3000)))
@@ -257,14 +317,27 @@ func davWorker(cl *webdav.Client, i, steps int, r *rand.Rand, ov *overlap, jitte
 				return "0", fmt.Sprint(httpCode(err))
 			})
 		case op == 7: // Copy
-			fl := files()
+			fl := sources()
 			if len(fl) == 0 {
 				continue
 			}
 			src := fl[r.Intn(len(fl))]
+			if related(src, name) {
+				continue // into itself / onto an own ancestor: not a plain copy
+			}
 			noOver := r.Intn(2) == 0
+			shallow := model[src] == dir && r.Intn(3) == 0
+			switch {
+			case shallow:
+				ov.count("Depth 0 COPY of a collection")
+			case populated(src):
+				ov.count("COPY of a populated collection")
+			}
+			if populated(name) {
+				ov.count("COPY / MOVE onto a populated collection")
+			}
 			do(s, "Copy", func() (string, string) {
-				err := cl.Copy(ctx, src, name, &webdav.CopyOptions{NoOverwrite: noOver})
+				err := cl.Copy(ctx, src, name, &webdav.CopyOptions{NoOverwrite: noOver, NoRecursive: shallow})
 				_, exists := model[name]
 				switch {
 				case src == name:
@@ -272,37 +345,41 @@ func davWorker(cl *webdav.Client, i, steps int, r *rand.Rand, ov *overlap, jitte
 				case exists && noOver:
 					return "412", fmt.Sprint(httpCode(err))
 				}
-				if exists {
-					for p := range model {
-						if strings.HasPrefix(p, name+"/") {
-							delete(model, p)
-						}
-					}
-				}
-				model[name] = model[src]
+				copyTree(src, name, !shallow)
 				return "0", fmt.Sprint(httpCode(err))
 			})
 		case op == 8: // Move
-			fl := files()
+			fl := sources()
 			if len(fl) == 0 {
 				continue
 			}
 			src := fl[r.Intn(len(fl))]
+			if related(src, name) {
+				continue
+			}
+			if populated(src) {
+				ov.count("MOVE of a populated collection")
+			}
+			if populated(name) {
+				ov.count("COPY / MOVE onto a populated collection")
+			}
 			do(s, "Move", func() (string, string) {
 				err := cl.Move(ctx, src, name, nil)
 				if src == name {
 					return "403", fmt.Sprint(httpCode(err))
 				}
+				copyTree(src, name, true)
 				for p := range model {
-					if strings.HasPrefix(p, name+"/") {
+					if p == src || strings.HasPrefix(p, src+"/") {
 						delete(model, p)
 					}
 				}
-				model[name] = model[src]
-				delete(model, src)
 				return "0", fmt.Sprint(httpCode(err))
 			})
 		default: // RemoveAll
+			if populated(name) {
+				ov.count("DELETE of a populated collection")
+			}
 			do(s, "RemoveAll", func() (string, string) {
 				err := cl.RemoveAll(ctx, name)
 				if _, ok := model[name]; !ok {
@@ -577,6 +654,9 @@ func recordOverlap(c *fw.Ctx, cfg schedCfg, ov *overlap) {
 	defer ov.mu.Unlock()
 	for k, v := range ov.pairs {
 		c.Observe("overlap_matrix_"+cfg.Server, k, v)
+	}
+	for k, v := range ov.ops {
+		c.Observe("tree_operations_"+cfg.Server, k, v)
 	}
 	c.Observe("max_in_flight", fmt.Sprintf("%s N=%d P=%d", cfg.Server, cfg.N, cfg.GOMAXPROCS), ov.maxIn)
 	sig := strings.Join(ov.order, "")
